@@ -400,7 +400,7 @@ def run_shard(spec, res):
     rng = rng_for(spec["seed"], "c11-shard", spec["i"])
     for j in range(spec["count"]):
         mode = rng.choice(["same", "edit", "edit", "edit", "edit", "indep", "indep", "self" if j % 3 == 0 else "edit"])
-        if j % 40 == 7:
+        if j % 40 == 7 and j < 6000:  # (at most 150 wide pairs per shard: each costs as much as some hundred ordinary ones)
             mode = "wide"
         run_case({"seed": rng.randrange(10**9), "mode": mode}, res)
         if res.expired():
